@@ -386,15 +386,20 @@ def run(out, tier, seed):
                                                "ok_answers_on_versions_after_such_changes")}
     out.cov["analysis_api"] = api
     out.cov["query_kinds"] = summary["by_kind"]
-    out.cov["rule"] = ("MC: Host.tla exhaustively for 2 readers x 2 changes x 2 files x 2 queries per snapshot (with and without the "
-                       "synthetic write; thorough adds 3 readers), invariants + liveness Prompt without state constraint, every "
-                       "action covered, two broken variants refuted.  TRACE: %d seeded runs of 1 writer (1-4 changes of 1-3 of 3 "
-                       "generated modules with up to 240 chained functions) against 1-4 readers (1-3 queries per snapshot out of a "
-                       "12-entry menu over 9 query kinds) on the real AnalysisHost; each run validated by TLC against Host with the "
-                       "reference hashes of a fresh analysis of every version.  samples = harness runs; evaluations = queries "
-                       "issued on snapshots; distinct_nontrivial = runs in which a query overlapped an apply_change (a Cancelled "
-                       "result or a QueryEnd between ApplyBegin and ApplyEnd); traces_validated_against_impl = runs accepted by "
-                       "Trace_Host" % nruns)
+    out.cov["rule"] = ("MC: Host.tla exhaustively for 2 readers x 2 changes x 2 files x 2 queries per snapshot, a Change = any interleaving of "
+                       "its writes with up to 2 files written twice (intermediate, then final text), with and without a leading "
+                       "roots/graph write and the synthetic write (thorough adds 3 readers, and 3 changes x 3 files); invariants incl. "
+                       "NoIntermediate, action properties ApplyEffect / SnapshotSeesCommitted, liveness Prompt without state constraint, "
+                       "every action covered, three broken variants refuted.  TRACE: %d seeded runs of 1 writer (1-4 changes of 1-3 of 3 "
+                       "generated modules with up to 240 chained functions; every third file queued twice, every fifth change with roots "
+                       "+ package graph) against 1-4 readers on the real AnalysisHost; menu of 24 entries over 19 query kinds = every "
+                       "public query method of ide::Analysis (compared with the source of the tree under test); 1-3 queries per "
+                       "snapshot, or - ambush - the whole menu while a write is known to be pending; each run validated by TLC against "
+                       "Host with the reference hashes of a fresh analysis of every version (last content queued per file).  samples = "
+                       "harness runs; evaluations = queries issued on snapshots; distinct_nontrivial = runs in which a query overlapped "
+                       "an apply_change (a Cancelled result or a QueryEnd between ApplyBegin and ApplyEnd); "
+                       "traces_validated_against_impl = runs accepted by Trace_Host; query_kinds = per kind: issued / started while a "
+                       "write was known pending / cancelled / ok during an apply" % nruns)
     out.assumptions += [
         "the host mutex of the harness stands for the &self/&mut self exclusivity of AnalysisHost (in the server both happen on the one main-loop thread)",
         "scheduling is sampled (seeded delays + OS scheduler), not enumerated: exhaustive only at the model level",
